@@ -188,6 +188,8 @@ def run(ctx: Context, rep) -> None:
     C_.check_forwarding(ctx, rep, "C11.select", selection_functions(ctx),
                         ["shard_filter", "custom_metadata_type_limit"], {})
     rep.floor("C11.select", rep.count("C11.select"), 10, "instances")
+    from sa.rules import shared as _sh
+    _sh.check_label_copy(ctx, rep, "C11.label-copy")
 
 
 
